@@ -359,6 +359,80 @@ func (ch c12) connect(c *core.Ctx, env *hs.Env, cfg c12config, p c12packet, yiel
 	return true
 }
 
+func (ch c12) interrupted(c *core.Ctx, env *hs.Env, cfg c12config, rng *core.Rng) {
+	var p c12packet
+	for p = c12genPacket(rng, "intr"); p.Bad != ""; p = c12genPacket(rng, "intr") {
+	}
+	exp := cfg.expectStatus(p.user())
+	for k := 1; k <= len(exp)+4; k++ {
+		cs := map[string]any{"config": fmt.Sprintf("%+v", cfg), "packet": p.shape(), "interrupted_write": k}
+		conn := tr.NewConn(nil)
+		conn.TempWriteAt = k
+		env.L.DialConn(conn)
+		conn.Send(p.bytes())
+		closed, _ := conn.Quiesce()
+		if cfg.Auth && !closed {
+			conn.Send(pg.Password("pw"))
+			conn.Quiesce()
+		}
+		conn.CloseWrite()
+		if !conn.WaitClosed() {
+			c.Inconclusive("connection did not close (C12 interrupted-write workload)")
+			return
+		}
+		out := conn.Out()
+		msgs, rest, err := pg.ParseStream(out)
+		viol := func(sig, detail string) {
+			c.Violate("interrupted", "after an interrupted write: "+sig, fmt.Sprintf("config{params=%d version=%q auth=%v} write %d interrupted half-way: %s; reply %s + %d bytes", len(cfg.Params), cfg.Version, cfg.Auth, k, detail, trim(pg.Kinds(msgs), 300), rest), cs)
+		}
+		c.Count("interrupted_write_startups", 1)
+		if conn.TempFired() > 0 {
+			c.Count("interrupted_writes_delivered", 1)
+		}
+		if err != nil {
+			viol("reply not well-formed", err.Error())
+			return
+		}
+		i, seen := 0, map[string]bool{}
+		if cfg.Auth && len(msgs) > 0 {
+			if msgs[0].T != 'R' || msgs[0].Auth != 3 {
+				viol("authentication exchange is not first", "")
+				return
+			}
+			i = 1
+		}
+		if i < len(msgs) {
+			if msgs[i].T != 'R' || msgs[i].Auth != 0 {
+				viol("AuthenticationOk does not follow", "")
+				return
+			}
+			i++
+		}
+		for ; i < len(msgs) && msgs[i].T == 'S'; i++ {
+			e, ok := exp[msgs[i].Key]
+			if !ok || seen[msgs[i].Key] || (e != msgs[i].Val && e != "\x00on-or-off") {
+				viol("ParameterStatus not configured, repeated or with another value", fmt.Sprintf("key %q = %q", msgs[i].Key, msgs[i].Val))
+				return
+			}
+			seen[msgs[i].Key] = true
+		}
+		if i < len(msgs) && (msgs[i].T != 'Z' || msgs[i].Status != 'I' || i != len(msgs)-1 || len(seen) != len(exp)) {
+			viol("reply is not auth, each ParameterStatus once, one ReadyForQuery(I)", collapse(pg.Types(msgs)))
+			return
+		}
+		if rest > 0 {
+			// the accepted half of the interrupted message, at the very end of a given-up connection
+			tail := out[len(out)-rest:]
+			if !strings.ContainsRune("RSZE", rune(tail[0])) {
+				viol("trailing bytes are not the head of a message", hexs(tail))
+				return
+			}
+			c.Count("given_up_after_interrupted_write", 1)
+		}
+		c.Eval(fmt.Sprintf("interrupted write %d cfg{%d,%v,%v}", k, len(cfg.Params), cfg.Version != "", cfg.Auth), true)
+	}
+}
+
 func classKey(k string) string {
 	switch k {
 	case "server_encoding", "client_encoding", "is_superuser", "session_authorization", "server_version":
@@ -454,6 +528,15 @@ func (ch c12) Run(c *core.Ctx) {
 			c.Eval(fmt.Sprintf("cfg{%d,%v,%v} %s", len(cfg.Params), cfg.Version != "", cfg.Auth, p.shape()), !dups || p.Bad != "" || len(cfg.Params) > 0)
 			if ci == 0 && i < 2 {
 				c.Sample(map[string]any{"config": fmt.Sprintf("%+v", cfg), "packet": p.shape()})
+			}
+		}
+		// the k-th transport Write interrupted half-way with a temporary (timeout) error, for every k: the
+		// connection may end there or the message may be completed; each message still arrives at most once
+		// and in order
+		if ci%5 == 0 {
+			idx++
+			if c.Begin(idx) && c.NViol() < 10 {
+				ch.interrupted(c, env, cfg, rng)
 			}
 		}
 		// concurrent connects on the same server
